@@ -80,7 +80,7 @@ def make_cases(rng, nbase):
         T = g.rust_type(t)
         E = g.rust_expr(v, t)
         S = tgen.sexp(v)
-        for mode in ("root", "chain", "index", "arg", "await"):
+        for mode in ("root", "root-index-arg", "root-paren-index", "root-index-impl", "root-deref-field", "chain", "index", "arg", "await"):
             c = t3.Case()
             c.id = k
             k += 1
@@ -92,6 +92,14 @@ def make_cases(rng, nbase):
             if mode == "root":
                 t3.finish_case(c, g.decls() + COUNT_DECLS, T, E, S, pat)
                 c.text = "tick(&v), " + pat
+            elif mode.startswith("root-"):
+                # the asserted expression is a PLACE whose evaluation is observable: an index operand with a side effect, a counting user
+                # Index impl, a field reached through a counting user Deref impl
+                rdecl = ("#[derive(Debug)] pub struct CI<T> { pub f: T }\nimpl<T> std::ops::Index<usize> for CI<T> { type Output = T; fn index(&self, _i: usize) -> &T { tick(&self.f) } }\n"
+                         "#[derive(Debug)] pub struct In<T> { pub f: T }\n#[derive(Debug)] pub struct D<T> { pub inner: In<T> }\nimpl<T> std::ops::Deref for D<T> { type Target = In<T>; fn deref(&self) -> &In<T> { tick(&self.inner) } }\n")
+                t3.finish_case(c, g.decls() + COUNT_DECLS + rdecl, T, E, S, pat)
+                c.text = {"root-index-arg": "xs[tick(0)]", "root-paren-index": "(xs[tick(0)])", "root-index-impl": "ci[0]", "root-deref-field": "d.f"}[mode] + ", " + pat
+                c.root_setup = "let xs = vec![v.clone()]; let ci = CI { f: v.clone() }; let d = D { inner: In { f: v.clone() } }; "
             else:
                 adt = lambda ctor, names, vals: "(adt %s (names %s) (vals %s))" % (tgen.hexs(ctor), " ".join(tgen.hexs(n) for n in names), " ".join(vals))
                 if mode == "index":
@@ -108,7 +116,7 @@ def make_cases(rng, nbase):
                     t3.finish_case(c, decls, "W2", "W2 { w: W { f: %s } }" % E, adt("W2", ["w"], [adt("W", ["f"], [S])]), "W2 { %s: %s }" % (path, pat))
                     if mode == "await":
                         c.wrap_open, c.wrap_close = "block_on(async {", "})"
-            c.setup = "TICKS.with(|c| c.set(0));"
+            c.setup = getattr(c, "root_setup", "") + "TICKS.with(|c| c.set(0));"
             c.post = 'println!("X %d ticks={}", TICKS.with(|c| c.get()));' % c.id
             cases.append(c)
     return cases
@@ -183,7 +191,7 @@ def run(ck):
         if ticks == 1:
             continue
         desc = dict(t3.describe(c), evaluations=ticks, mode=c.mode, form=c.form, outcome=gk)
-        if c.mode == "root":
+        if c.mode.startswith("root"):
             if ticks == 0 and assertion_free(c.inner_pattern):
                 ck.report("zero-evaluations", "the asserted expression is not evaluated at all", desc)
             else:
@@ -202,7 +210,7 @@ def run(ck):
     ck.corr_record("T3 evaluation counters (asserted expression and method-call chains wrapped in counting calls; every form, passing and failing)",
                    len(cases), len({c.text + c.value_text for c in cases}), 0, dist,
                    samples=[dict(invocation="assert_struct!(%s)" % c.text[:150], outcome=c.got[0], ticks=getattr(c, "extra", {}).get("ticks")) for c in cases[:3]],
-                   rule="every atom form / range shape / compound type of the C11 catalogue x {matching, bound-crossing value} x {counting asserted expression, counting getter chain, counting user Index impl, counting method argument, counting async getter under .await}; every case distinct")
+                   rule="every atom form / range shape / compound type of the C11 catalogue x {matching, bound-crossing value} x {counting asserted expression (a call; an index expression with a counting operand, plain and parenthesised; a counting user Index impl; a field through a counting user Deref impl), counting getter chain, counting user Index impl, counting method argument, counting async getter under .await}; every case distinct")
     if t2_mm and not found:
         ck.report("corr:T2-body", "the model of the code generator no longer matches the real expansion (%d inputs differ)" % len(t2_mm),
                   dict(broken="correspondence T2 (expansion tokens)", theorems=["C08_root_bound_once", "C08_leaf_evaluations"], first=t2_mm[:3]), no_input=True)
